@@ -10,6 +10,7 @@ import (
 	"os"
 	"path/filepath"
 	"sort"
+	"strings"
 	"strconv"
 	"sync"
 	"testing"
@@ -262,4 +263,38 @@ type TB interface {
 	Fatalf(format string, args ...any)
 	Logf(format string, args ...any)
 	Helper()
+}
+
+// Scratch returns a fresh directory under $VERIF_SCRATCH (created by the driver, removed after the run).
+func Scratch(prefix string) string {
+	base := os.Getenv("VERIF_SCRATCH")
+	if base == "" {
+		base = os.TempDir()
+	}
+	_ = os.MkdirAll(base, 0o755)
+	d, err := os.MkdirTemp(base, prefix)
+	if err != nil {
+		panic(err)
+	}
+	return d
+}
+
+// Known reports whether sig is listed as a known (unfixed) finding for this run.
+func Known(sig string) bool {
+	for _, k := range strings.Split(os.Getenv("VERIF_KNOWN"), ",") {
+		if k != "" && k == sig {
+			return true
+		}
+	}
+	return false
+}
+
+// HardFail reports a violation that must not be handed to rapid's shrinker (a hung call leaves
+// goroutines behind and every shrink attempt would wait for the watchdog again): it stores the
+// case, flushes the statistics and exits the test process with status 1.
+func HardFail(name string, c any, format string, args ...any) {
+	p := SaveCase(name, c)
+	fmt.Printf("--- FAIL: %s\n    VERIF-VIOLATION %s (case %s)\n", name, fmt.Sprintf(format, args...), p)
+	Flush(true)
+	os.Exit(1)
 }
